@@ -118,6 +118,11 @@ type W struct {
 	nviol    map[string]int
 	idx      int64
 
+	// PriorHangs are the cases on which earlier incarnations of this worker hung (the driver
+	// restarts a worker after each hang); a check may use them to skip a class of cases that is
+	// already known not to return instead of paying the horizon for each of them.
+	PriorHangs []json.RawMessage
+
 	guardMu    sync.Mutex
 	guardCase  interface{}
 	guardStart time.Time
@@ -368,6 +373,11 @@ func workerMain(args []string) {
 	if dl > 0 {
 		w.deadline = time.Now().Add(time.Duration(dl * float64(time.Second)))
 	}
+	if len(args) > 6 && args[6] != "" {
+		if b, err := os.ReadFile(args[6]); err == nil {
+			json.Unmarshal(b, &w.PriorHangs)
+		}
+	}
 	go w.watchdog()
 	c.Work(w)
 	w.Unguard()
@@ -385,9 +395,28 @@ type workerResult struct {
 func runWorker(c *Check, tier string, shard, n int, deadline time.Duration, res *workerResult, mu *sync.Mutex) {
 	resume := int64(0)
 	restarts := 0
+	var hangs []json.RawMessage
+	startAll := time.Now()
 	for {
+		hangFile := ""
+		if len(hangs) > 0 {
+			if f, err := os.CreateTemp("", "vcheck-hangs-*.json"); err == nil {
+				b, _ := json.Marshal(hangs)
+				f.Write(b)
+				f.Close()
+				hangFile = f.Name()
+				defer os.Remove(hangFile)
+			}
+		}
+		remaining := deadline
+		if deadline > 0 {
+			remaining = deadline - time.Since(startAll)
+			if remaining < time.Second {
+				remaining = time.Second
+			}
+		}
 		cmd := exec.Command(os.Args[0], "-worker", c.ID, tier, strconv.Itoa(shard), strconv.Itoa(n),
-			strconv.FormatInt(resume, 10), strconv.FormatFloat(deadline.Seconds(), 'f', 1, 64))
+			strconv.FormatInt(resume, 10), strconv.FormatFloat(remaining.Seconds(), 'f', 1, 64), hangFile)
 		cmd.Env = append(os.Environ(), "GOMAXPROCS="+workerProcs(c), "GOTRACEBACK=single", "GORACE=halt_on_error=0 exitcode=0")
 		if c.CrashTolerant {
 			d, _ := os.MkdirTemp("", "vcheck-"+c.ID+"-")
@@ -447,6 +476,9 @@ func runWorker(c *Check, tier string, shard, n int, deadline time.Duration, res 
 						mu.Lock()
 						res.viols = append(res.viols, r.Viol)
 						mu.Unlock()
+						if r.Viol.Hang {
+							hangs = append(hangs, r.Viol.Case)
+						}
 					case "stats":
 						mu.Lock()
 						res.stats = append(res.stats, r.Stats)
